@@ -186,6 +186,18 @@ def gamut_case(draw):
                 zero_rows=draw(st.sampled_from(["none", "none", "both", "reference"])))
 
 
+def affine_dims(Y):
+    """(strict, loose) affine dimension of the rows of Y: numbers of singular values of the centred cloud above 1e-6 and above 1e-12
+    of the largest.  They differ for nearly flat clouds, where "the volume within the affine span" is ambiguous."""
+    Y = np.asarray(Y, dtype=float)
+    if Y.shape[0] < 2:
+        return 0, 0
+    sv = np.linalg.svd(Y - Y.mean(axis=0), compute_uv=False)
+    if sv.size == 0 or sv[0] <= 0:
+        return 0, 0
+    return int(np.sum(sv > 1e-6 * sv[0])), int(np.sum(sv > 1e-12 * sv[0]))
+
+
 def body_gamut(case):
     dreye = _dreye()
     X = np.asarray(case["X"], dtype=float)
@@ -222,8 +234,16 @@ def body_gamut(case):
                 g_ref = float(dreye.compute_gamut(X, metric=metric, seed=seed, relative_to=S[np.abs(S).sum(axis=1) > 0]))
         check(abs(g_ref - g_sup) <= 1e-9 * abs(g_ref), "gamut:dark-row-in-reference", f"a dark row in the reference changes the relative gamut: {g_ref} -> {g_sup}")
     if g_at is not None:
-        check(0 <= g_at <= 1.0 + 1e-9, "gamut:at-l1-superset", f"gamut at l1={at} relative to a superset = {g_at}")
-        labs.append("at_l1")
+        # The volume is "within the affine span": a slice of lower affine dimension than the reference's chromaticities is measured
+        # in another unit (a length against an area) and the ratio is not bounded by 1 - only equal dimensions are compared.
+        Sn = S[np.abs(S).sum(axis=1) > 0]
+        dX, dS = affine_dims(X[np.abs(X).sum(axis=1) > 0]), affine_dims(Sn / Sn.sum(axis=1, keepdims=True))
+        if metric == "volume" and not (dX[0] == dX[1] and dS[0] == dS[1] and dX[0] - 1 == dS[0]):
+            check(g_at >= 0, "gamut:at-l1-superset", f"gamut at l1={at} relative to a superset = {g_at}")
+            labs.append("at_l1:flat-slice-volume-not-comparable")
+        else:
+            check(0 <= g_at <= 1.0 + 1e-9, "gamut:at-l1-superset", f"gamut at l1={at} relative to a superset = {g_at}")
+            labs.append("at_l1")
     labs.append("nt:superset-strictly-larger" if g_sup < 1 - 1e-6 else "superset-equal")
     return labs
 
@@ -258,7 +278,10 @@ def body_est_gamut(case):
             g2 = float(est.compute_gamut(relative=False, metric=case["metric"], seed=case["seed"]))
     check(g_abs == g2, "est-gamut:not-deterministic", f"{g_abs} vs {g2}")
     nf, ns = len(case["filters"]), len(case["sources"])
-    if ns < nf and case["metric"] == "volume":
+    dq = affine_dims(Qh)
+    if case["metric"] == "volume" and not (dq[0] == dq[1] == nf - 1):
+        # fewer distinct source chromaticities than the receptor space has dimensions: the sources' volume is a lower-dimensional
+        # measure than the perfect system's and the ratio of the two is not a fraction
         check(g_abs >= 0, "est-gamut:range", f"{g_abs}")
         return ["flat-volume"]
     check(0 < g_abs <= 1.0 + 1e-9, "est-gamut:range", f"fractional gamut in absolute capture = {g_abs} (must lie in (0, 1])")
